@@ -45,6 +45,9 @@ pub struct Case {
     /// (the process itself works one directory above)
     #[serde(default)]
     pub included: Option<Vec<String>>,
+    /// the script is stored under a file name that is not valid UTF-8
+    #[serde(default)]
+    pub odd_name: bool,
 }
 
 const SCRIPT: &str = "run/script.ds";
@@ -193,7 +196,8 @@ fn gen_case(rng: &mut Rng) -> Case {
     } else {
         None
     };
-    Case { entropy: rng.next_u64(), form, lines, fault, included }
+    let odd_name = rng.chance(1, 30);
+    Case { entropy: rng.next_u64(), form, lines, fault, included, odd_name }
 }
 
 /// the reference run's `exec`: what `/bin/echo words...` without an output variable adds to the inherited stdout, written
@@ -269,6 +273,31 @@ fn run_case(case: &Case, env: &WorkerEnv) -> Verdict {
         Form::Help => vec!["--help".to_string()],
         Form::HelpShort => vec!["-h".to_string()],
     };
+    // ---- a script file whose NAME is not valid UTF-8 (legal on this file system): the executable must answer like for
+    // any other file it can or cannot use - run it, or fail with an Error: line - and not die on its own arguments
+    if case.odd_name && matches!(case.form, Form::File | Form::LintShort) && case.fault.is_none() {
+        use std::os::unix::ffi::OsStrExt;
+        let name = std::ffi::OsStr::from_bytes(b"run/caf\xe9.ds");
+        let _ = std::fs::write(name, "echo hi\n");
+        let mut cmd = Command::new(&duck);
+        if matches!(case.form, Form::LintShort) {
+            cmd.arg("-l");
+        }
+        let out = cmd.arg(name).env_clear().current_dir(&env.jail_root).stdin(Stdio::null()).stdout(Stdio::piped()).stderr(Stdio::piped()).output();
+        let _ = std::fs::remove_dir_all("run");
+        sim::with_core(|c| c.probe("script-file-name-not-utf8"));
+        return match out {
+            Err(e) => Verdict::Inconclusive { reason: format!("cannot execute duck: {}", e) },
+            Ok(o) => {
+                let so = String::from_utf8_lossy(&o.stdout).to_string();
+                match o.status.code() {
+                    Some(0) => Verdict::Pass,
+                    Some(_) if so.contains("Error:") => Verdict::Pass,
+                    other => Verdict::Fail { class: "no-error-message".to_string(), detail: format!("duck <file name with a non-UTF-8 byte> ended with status {:?} and no 'Error:' line; stdout {:?}{}", other, so, if String::from_utf8_lossy(&o.stderr).contains("panicked") { "; stderr shows a panic" } else { "" }) },
+                }
+            }
+        };
+    }
     // ---- the executable: clean environment, private cwd, no stdin
     let output = Command::new(&duck).args(&args).env_clear().current_dir(&env.jail_root).stdin(Stdio::null()).stdout(Stdio::piped()).stderr(Stdio::piped()).output();
     let output = match output {
